@@ -84,6 +84,15 @@ fn note(sz: usize) {
     });
 }
 
+/// Run `f` with counting suspended (for the harness's own bookkeeping inside a monitored call).
+#[inline]
+pub fn uncounted<R>(f: impl FnOnce() -> R) -> R {
+    let was = ACTIVE.with(|a| a.replace(false));
+    let r = f();
+    ACTIVE.with(|a| a.set(was));
+    r
+}
+
 #[derive(Clone, Copy, Debug, Default)]
 pub struct AllocStats {
     /// sum of all request sizes during the window
